@@ -6,12 +6,20 @@ import "time"
 
 // VerifSetLastRead sets the time of the last inbox read, so that the harness controls the outcome of
 // the `time.Since(q.lastRead) > inboxReadFrequency` test at the start of Pop.
-func VerifSetLastRead(q Queue, t time.Time) { q.(*priorityQueue).lastRead = t }
+func VerifSetLastRead(q Queue, t time.Time) { verifInner(q).lastRead = t }
+
+// verifInner unwraps the metrics wrapper the validator puts around its queue (WithMetrics).
+func verifInner(q Queue) *priorityQueue {
+	if w, ok := q.(*queueWithMetrics); ok {
+		return verifInner(w.Queue)
+	}
+	return q.(*priorityQueue)
+}
 
 // VerifListLen returns the number of messages in the linked list (excluding the inbox channel).
 func VerifListLen(q Queue) int {
 	n := 0
-	for i := q.(*priorityQueue).head; i != nil; i = i.next {
+	for i := verifInner(q).head; i != nil; i = i.next {
 		n++
 	}
 	return n
